@@ -70,6 +70,11 @@ int run_c02(const Args& a, Recorder& rec) {
                     if (std::abs(va - vz) > tp) rec.violation("C02:matsubara-number", "operator()(n1,n2,n3) differs from operator()(z1,z2,z3)", kw);
                     if (lb && std::abs(tb[w] - va) > tp) rec.violation("C02:path:compute(false,freqs)", "table entry differs from on-demand evaluation", kw);
                     if (lc && std::abs(tc[w] - va) > tp) rec.violation("C02:path:compute(true,freqs)", "table entry (terms purged) differs from on-demand evaluation", kw);
+                    // after a purging computation the object may refuse on-demand evaluation (it throws); a value it does return must be right
+                    { bool refused = false; cd vp = 0; try { vp = Cc(n1, n2, n3); } catch (std::exception&) { refused = true; }
+                      if (!refused && std::abs(vp - va) > tp) rec.violation("C02:path:on-demand-after-purge", "after compute(true,freqs) on-demand evaluation returns a wrong value instead of the value or an error", kw);
+                    }
+                    { try { cd vb = B(n1, n2, n3); if (std::abs(vb - va) > tp) rec.violation("C02:path:on-demand-after-compute(false,freqs)", "on-demand evaluation after compute(false,freqs) differs from the plain computation", kw); } catch (std::exception& e) { rec.violation("C02:path:on-demand-after-compute(false,freqs)", std::string("on-demand evaluation after compute(false,freqs) throws: ") + e.what(), kw); } }
                     if (ln && std::abs((*tn)[w] - va) > tp) rec.violation("C02:path:computeAll-unsplit", "container table entry differs from on-demand evaluation of that component", kw);
                     if (ls && std::abs((*ts)[w] - va) > tp) rec.violation("C02:path:computeAll-split", "container table entry differs from on-demand evaluation of that component", kw);
                     refed::Val ref = R(freqs[w].get<0>(), freqs[w].get<1>(), freqs[w].get<2>());
